@@ -167,7 +167,7 @@ def _d3(chk, fb):
             # the attaching (or registering) half may live in a helper of the class that receives the cloned listener
             via = []
             for u in uses:
-                if u["callee"].get("inrepo") and u["callee"].get("cls") == APA and u["callee"]["name"] not in ("addParameterListener",):
+                if u["callee"].get("inrepo") and u["callee"]["name"] not in ("addParameterListener", "setParameterList", "operator=", "insert", "emplace", "insert_or_assign"):
                     for t in fb.targets(u):
                         if t.body is not None:
                             if any(x["callee"]["name"] == "addParameterListener" for x in t.calls()):
@@ -178,7 +178,7 @@ def _d3(chk, fb):
                                 via.append(t.name)
             if attach and reg:
                 chk.proved("D3", f.key, "listener-registered-and-attached", f.loc(attach[0]), "registered in the map and attached to the parameters that carried the old id" + (" (through %s)" % ", ".join(sorted(set(via))) if via else ""))
-            elif uses and not (attach or reg):
+            elif uses and (not (attach or reg) or any(u["callee"]["name"] not in ("addParameterListener", "setParameterList", "operator=", "insert", "emplace", "insert_or_assign") and u not in attach and u not in reg for u in uses)):
                 chk.unknown("D3", f.key, "listener-registered-and-attached", f.loc(ds), "the cloned listener is handed to %s: registration/attachment not recognised there" % sorted({u["callee"]["name"] for u in uses}))
             else:
                 chk.refuted("D3", f.key, "listener-registered-and-attached", f.loc(ds), "cloned listener is not both registered and attached")
